@@ -15,3 +15,7 @@ pub mod encode;
 
 pub use bititer::{u2, BitCollector, BitIter, CloseError, EarlyEndOfStreamError};
 pub use bitwriter::{write_to_vec, BitWriter};
+
+/// Verification hook: makes the error type of `BitIter::read_natural` nameable.
+#[cfg(feature = "verif-hooks")]
+pub use bititer::DecodeNaturalError;
